@@ -11,7 +11,7 @@ RULE = ("Cases: signals (all families, up to 200 samples quick / 400 thorough) x
         "get_next_imf (get_next_imf_mask with the documented frequency/amplitude rule) applied to x - sum of the "
         "first j columns - bit-exact first, 1e-8 next, otherwise a violation only if the reference model shows the "
         "extraction well conditioned; (cap) every variant {sift, mask_sift, ensemble_sift, complete_ensemble_sift, "
-        "sift_second_layer} x caps below / equal / above what the signal yields: returns (never raises for a valid "
+        "sift_second_layer, mask_sift_second_layer} x caps below / equal / above what the signal yields: returns (never raises for a valid "
         "cap), samples on axis 0, components <= cap, all finite, documented extras (noise matrix, 3-D layout). "
         "Non-trivial: a binding cap (1 <= k < K) with K >= 2.")
 ASSUMPTIONS = ["ensemble variants run with nensembles 2..3, nprocesses=1 and a seeded global numpy RNG",
@@ -174,7 +174,7 @@ def variant_case(draw, max_n):
     sig = {'family': draw(st.sampled_from(['tones', 'amfm', 'noise', 'walk', 'levels'])), 'n': n,
            'k': draw(st.integers(0, 2**32 - 1)), 'p1': draw(st.floats(0, 1)), 'p2': draw(st.floats(0, 1))}
     return {'sig': sig, 'variant': draw(st.sampled_from(['ensemble_sift', 'complete_ensemble_sift', 'sift_second_layer',
-                                                         'sift_second_layer_defaults'])),
+                                                         'sift_second_layer_defaults', 'mask_sift_second_layer'])),
             'capoff': draw(st.integers(-3, 2)), 'nens': draw(st.integers(2, 3)),
             'noise_mode': draw(st.sampled_from(['single', 'flip'])), 'seed': draw(st.integers(0, 2**31 - 1)),
             'noise': draw(st.sampled_from([0.05, 0.2, 1.0]))}
@@ -207,6 +207,11 @@ def oracle_variant(case, rec):
             ia = np.abs(base[:, :min(K, 4)]) + 0.1
             out = emd.sift.sift_second_layer(ia.copy(), sift_args={'max_imfs': k})
             imf, extra = np.asarray(out), ia
+        elif v == 'mask_sift_second_layer':
+            ia = np.abs(base[:, :min(K, 3)]) + 0.1
+            masks = [0.25 / 2 ** i for i in range(ia.shape[1] + 2)]
+            out = emd.sift.mask_sift_second_layer(ia.copy(), masks, sift_args={'max_imfs': k, 'nphases': 2})
+            imf, extra = np.asarray(out), ia
         else:
             ia = np.abs(base[:, :min(K, 4)]) + 0.1
             out = emd.sift.sift_second_layer(ia.copy())
@@ -218,7 +223,7 @@ def oracle_variant(case, rec):
         raise Discard('convergence error')
     except Exception as e:
         raise Violation('C03/%s/raises/%s/cap-%s' % (v, type(e).__name__, cls), 'k=%r K=%d n=%d: %r' % (k, K, x.size, e))
-    if v.startswith('sift_second_layer'):
+    if 'second_layer' in v:
         if imf.ndim != 3 or imf.shape[0] != x.size or imf.shape[1] != extra.shape[1]:
             raise Violation('C03/%s/layout' % v, 'got %r for IA %r' % (imf.shape, extra.shape))
         ncomp = imf.shape[2]
